@@ -32,7 +32,8 @@ for m, n, c in names:
     lines = [l for l in txt[mm.end():].split('\n') if l.strip()]
     base = min(len(l) - len(l.lstrip()) for l in lines[1:]) if len(lines) > 1 else 0
     body = '\n'.join(['  ' + lines[0].strip()] + ['  ' + l[base:] for l in lines[1:]])
-    tn = n if n.startswith(prefix) else prefix + n
+    base_n = n.split('.')[-1]
+    tn = base_n if base_n.startswith(prefix) else prefix + base_n
     if tn in seen: tn = prefix + m.split('.')[-1] + '_' + n
     seen.add(tn)
     blk += '(* %s *)\nTheorem %s :\n%s.\nProof. exact @%s. Qed.\nPrint Assumptions %s.\n\n' % (c, tn, body, q, tn)
